@@ -88,7 +88,8 @@ static int decide(int from, uint64_t *slice) {
     if (S.mode == SM_REPLAY) {
         while (S.ireplay < S.nreplay) {
             SliceRec r = S.replay[S.ireplay++];
-            if (r.task >= 0 && r.task < S.n && S.state[r.task] == 0) { *slice = r.edges ? r.edges : 1; return r.task; }
+            // a slice that ended at an operation boundary (or with the task) is replayed as "run until that happens"
+            if (r.task >= 0 && r.task < S.n && S.state[r.task] == 0) { *slice = (r.kind != 0) ? (~0ULL >> 2) : (r.edges ? r.edges : 1); return r.task; }
         }
         *slice = ~0ULL >> 2; return runnable[0];
     }
@@ -105,14 +106,14 @@ static int decide(int from, uint64_t *slice) {
     return t;
 }
 
-static void log_slice(int task, uint64_t edges) {
-    if (S.nlog < MAXLOG) { S.log[S.nlog].task = task; S.log[S.nlog].edges = edges; S.nlog++; }
+static void log_slice(int task, uint64_t edges, int kind) {
+    if (S.nlog < MAXLOG) { S.log[S.nlog].task = task; S.log[S.nlog].edges = edges; S.log[S.nlog].kind = kind; S.nlog++; }
 }
 
 // Called on the thread of task `t` (holding the baton): give it to the next task, wait to get it back.
 static void handover(TaskCtx *t, uint32_t guard, int finished) {
     uint64_t ran = t->steps - t->slice_start;
-    log_slice(t->id, ran);
+    log_slice(t->id, ran, finished ? 2 : (guard ? 0 : 1));
     S.global_steps += ran;
     if (S.mode == SM_PCT && !finished && S.ichange < S.nchange && S.global_steps >= S.change[S.ichange]) {
         S.prio[t->id] = S.low_prio--; S.ichange++;
